@@ -3,7 +3,7 @@ from core import *
 from pslib import *
 from schnorrlib import *
 
-RULE = ("for commitment proofs (G1, G2), signature-request proofs and signature proofs, N in {1,2,3,5,8,13}: proofs "
+RULE = ("for commitment proofs (G1, G2), signature-request proofs and signature proofs, N in {1,2,3,5,8,13,17,34}: proofs "
         "assembled from bytes with known discrete logs for a context-derived challenge; every single-field "
         "perturbation (C, T, blinding-factor response, each response scalar, sigma1', sigma2'), another challenge, "
         "changed parameters / key elements (h, g_j, X~, g~, Y~j), simulated transcripts (T from c and random "
@@ -14,7 +14,7 @@ TRUSTED = ["theorems C11_* over an arbitrary field; correspondence ops: cp_verif
            "degenerate signatures)"]
 ASSUMPTIONS = ["challenge values are those reachable through ChallengeBuilder (SHA3 of the context): c = 0 cannot be "
                "produced through the API and is covered by the theorems only"]
-NS = [1, 2, 3, 5, 8, 13]
+NS = [1, 2, 3, 5, 8, 13, 17, 34]
 
 
 def run(run, h):
@@ -38,7 +38,7 @@ def delta(rng):
 
 
 def coords(run, rng, n):
-    return range(n) if (n <= 5 or run.tier == "thorough") else sorted(rng.sample(range(n), 3))
+    return pick_coords(rng, n, 3, run.tier == "thorough")
 
 
 def commitment_cases(run, h, pts, batch, rng, grp, n):
